@@ -50,6 +50,7 @@ func (w *World) renderQuery(o *Obl, forCVC5 bool) string {
 	}
 	// uninterpreted functions
 	ufs := map[string]string{}
+	usesInv := false
 	itoaArgs := map[string]*Term{}
 	for _, t := range all {
 		walk(t, func(s *Term) {
@@ -76,6 +77,10 @@ func (w *World) renderQuery(o *Obl, forCVC5 bool) string {
 			ufs[op] = "(declare-fun " + op + " (" + strings.Join(as, " ") + ") " + s.Sort + ")"
 			if op == "itoa" {
 				itoaArgs[s.Args[0].String()] = s.Args[0]
+			}
+			if op == "itoa_inv" {
+				delete(ufs, op)
+				usesInv = true
 			}
 		})
 	}
@@ -112,6 +117,9 @@ func (w *World) renderQuery(o *Obl, forCVC5 bool) string {
 		b.WriteString("(define-fun byte_str ((x String)) String (ite (< (str.to_code x) 128) x (str.++ (str.from_code (+ 192 (div (str.to_code x) 64))) (str.from_code (+ 128 (mod (str.to_code x) 64))))))\n")
 	}
 	b.WriteString(defs)
+	if len(itoaArgs) == 0 && usesInv {
+		b.WriteString("(declare-fun itoa_inv (String) Int)\n")
+	}
 	if len(itoaArgs) > 0 {
 		b.WriteString("(declare-fun itoa_inv (String) Int)\n")
 		keys := make([]string, 0, len(itoaArgs))
